@@ -40,7 +40,8 @@ anchors (where the behaviour lives): {json.dumps(prop['anchors'], indent=1)}
   - notes.md                    - for each change: what it breaks, why it looks like an honest mistake, what exactly is needed for it to manifest
 * Existing tests: `cd {W} && mkdir -p {O}/tmp && TMPDIR={O}/tmp PYTHONPATH={W}/src /venv/bin/python -m pytest -q -p no:cacheprovider --timeout=900 -n 4 tests`
   (about 500 tests, several minutes; a handful of tests that need the network fail/skip on the unchanged code too - compare with a run on the
-  clean worktree if unsure). Always prefix long commands with `timeout`. Never use pkill/killall. Leave the worktree CLEAN (git checkout -- .)
+  clean worktree if unsure). Always prefix long commands with `timeout`. Never use pkill/killall. Never use `git stash` (the stash is shared by all worktrees of the
+  repository and other people work in sibling worktrees) - use `git diff > file; git checkout -- .; git apply file`. Leave the worktree CLEAN (git checkout -- .)
   when you finish; the patches are what counts.
 
 ## What kind of change
